@@ -498,7 +498,12 @@ class DDPG(RLAlgorithm):
                     if swap_channels:
                         obs = obs_channels_to_first(obs)
                     action = self.get_action(obs, training=False)
+                    if not hasattr(env, "num_envs"):
+                        # Un-vectorised environment: unbatch the action, batch the flags
+                        action = action[0]
                     obs, reward, done, trunc, _ = env.step(action)
+                    if not hasattr(env, "num_envs"):
+                        done, trunc = [done], [trunc]
                     step += 1
                     scores += np.array(reward)
                     for idx, (d, t) in enumerate(zip(done, trunc)):
